@@ -27,6 +27,16 @@
 (*     ret_boxes / ret_disjoint / ret_abut / ret_cost / unsat_empty        *)
 (*                        the rectangles returned are the boxes of such a  *)
 (*                        shape                                            *)
+(*   front end (traces of kind "alloc": an Allocation YAML + a netlist     *)
+(*   YAML went through rect_io.get_alloc / get_netlist / select_box and    *)
+(*   the improvement loop of rect.main() around rect.solve):               *)
+(*     alloc_same_cells / alloc_occupancy / alloc_disjoint                 *)
+(*                        the InputProblem select_box produced has the     *)
+(*                        allocation's rectangles, the module's ratio as   *)
+(*                        occupancy, pairwise disjoint cells               *)
+(*     e2e_exact_shape / e2e_zero_error                                    *)
+(*                        a module allocated with ratio 1 exactly on a     *)
+(*                        k-STOG gets exactly that shape, with zero error  *)
 (*   model conformance (drift): definecoords' lists, the returned next     *)
 (*     bound Obj+1, the returned shape being one of the enumerated models. *)
 (* Verdicts are total: a step never blocks, Done prints one record.        *)
@@ -42,10 +52,13 @@ tvars == <<vars, tid, l, fails, drift, info, tab>>
 T == Batch[tid]
 
 TraceInit == /\ tid \in 1..Len(Batch) /\ l = 0 /\ fails = {} /\ drift = {} /\ info = <<>> /\ tab = {}
-             /\ mode = "solve" /\ pc = "call"
+             /\ mode = (IF Batch[tid].kind = "alloc" THEN "alloc" ELSE "solve") /\ pc = "call"
+             /\ src = (IF Batch[tid].kind = "alloc" THEN [alloc |-> Batch[tid].alloc, mod |-> Batch[tid].mod] ELSE <<>>)
              /\ par = [den |-> Batch[tid].den, fnum |-> Batch[tid].fnum, fden |-> Batch[tid].fden, ratio |-> Batch[tid].ratio]
-             /\ cells = Batch[tid].cells /\ k = Batch[tid].k
-             /\ xs = XsOf(Batch[tid].cells) /\ ys = YsOf(Batch[tid].cells) /\ nbr = Blank
+             \* the cells the search must receive: given directly, or the specified front end applied to the allocation
+             /\ cells = (IF Batch[tid].kind = "alloc" THEN FromAllocation(Batch[tid].alloc, Batch[tid].mod) ELSE Batch[tid].cells)
+             /\ k = Batch[tid].k
+             /\ xs = XsOf(cells) /\ ys = YsOf(cells) /\ nbr = Blank
              /\ wsel = Batch[tid].wsel /\ wreal = Batch[tid].wreal
              /\ boxes = <<>> /\ sel = <<>> /\ bound = 0 /\ res = NoResult /\ last = <<>>
 
@@ -60,9 +73,13 @@ WeightClauses ==
                      ELSE Near(wsel[c], AreaSel(c)) /\ Near(wreal[c], AreaReal(c)) ]
 InputDrift ==
   [ input_is_grid |-> IsGrid(cells),               \* the harness only submits grids (quantifier of C08)
-    definecoords  |-> T.xs = xs /\ T.ys = ys ]
+    definecoords  |-> T.xs = xs /\ T.ys = ys,
+    \* front end, beyond the clauses: select_box keeps the order of the document; main() would have picked the module
+    alloc_order   |-> T.kind = "alloc" => T.inp = cells,
+    module_picked |-> T.found = 1 ]
+FrontEnd == IF T.kind = "alloc" THEN FrontEndClauses(src.alloc, src.mod, T.inp) ELSE [ alloc_same_cells |-> TRUE ]
 Prep == /\ l = 0 /\ l' = 1
-        /\ fails' = fails \cup Failed(WeightClauses)
+        /\ fails' = fails \cup Failed(WeightClauses) \cup Failed(FrontEnd)
         /\ drift' = drift \cup Failed(InputDrift)
         /\ tab' = FastTable(k)
         /\ UNCHANGED <<vars, tid, info>>
@@ -113,11 +130,14 @@ Step == /\ l >= 1 /\ l <= Len(T.events)
              /\ drift' = drift \cup Failed(v.dr)
              /\ info' = IF v.nf.spurious + v.nf.missing > 0 THEN Append(info, v.nf) ELSE info
         /\ l' = l + 1
-        /\ UNCHANGED <<mode, pc, par, cells, k, xs, ys, nbr, wsel, wreal, boxes, sel, tid, tab>>
+        /\ UNCHANGED <<mode, src, pc, par, cells, k, xs, ys, nbr, wsel, wreal, boxes, sel, tid, tab>>
 
+\* the end-to-end contract, once the improvement loop has run to its end (last call unsat)
+Final == IF T.kind = "alloc" /\ T.complete = 1 THEN EndToEndClauses(src.alloc, src.mod, k, tab, last)
+         ELSE [ e2e_exact_shape |-> TRUE ]
 Done == /\ l = Len(T.events) + 1
         /\ l' = l + 1
-        /\ PrintT(ToJson([tag |-> "VERDICT", id |-> T.id, fails |-> fails, drift |-> drift, info |-> info]))
+        /\ PrintT(ToJson([tag |-> "VERDICT", id |-> T.id, fails |-> fails \cup Failed(Final), drift |-> drift, info |-> info]))
         /\ UNCHANGED <<vars, tid, fails, drift, info, tab>>
 
 TraceNext == Prep \/ Step \/ Done
